@@ -23,9 +23,12 @@ def trace_domain_names():
     return sorted(handlers)
 
 
-def make_alphabet(rng, n_dec=4, n_trace=3, n_trace_nohandler=1, n_undec=2, n_unknown=2):
+def make_alphabet(rng, n_dec=4, n_trace=3, n_trace_nohandler=1, n_undec=2, n_unknown=2, pool=None):
     """~12 codes: decodable ordinary / trace-domain (with and without handler) / known-but-undecoded /
-    unknown id.  Event ids are arbitrary multiples of 4 below 2^32 (incl. the extremes now and then)."""
+    unknown id.  Event ids are arbitrary multiples of 4 below 2^32 (incl. the extremes now and then).
+    pool (optional, `name_pool()`): one or two of the decodable and of the undecoded names are then REAL names — registered
+    handler names, names the source mentions, names of the bundled table — instead of the synthetic ones (the generator
+    stream without a pool is unchanged)."""
     tnames = trace_domain_names()
     total = n_dec + n_trace + n_trace_nohandler + n_undec + n_unknown
     eids = set()
@@ -42,6 +45,16 @@ def make_alphabet(rng, n_dec=4, n_trace=3, n_trace_nohandler=1, n_undec=2, n_unk
     names = rng.sample(ORDINARY_NAMES, n_dec)
     tn = rng.sample(tnames, n_trace + n_trace_nohandler)
     un = rng.sample(UNDECODED_NAMES, n_undec)
+    if pool:
+        tset = set(tnames)
+        for k in range(rng.choice([1, 1, 2])):
+            cand = rng.choice(pool['decodable'])
+            if k < n_dec and cand not in names and cand not in tset:
+                names[k] = cand
+        for k in range(rng.choice([1, 1, 2])):
+            cand = rng.choice(pool['undecoded'])
+            if k < n_undec and cand not in un and cand not in names and cand not in tset:
+                un[k] = cand
     for i in range(n_dec):
         codes.append([eids.pop(), names[i], True])
     for i in range(n_trace):
@@ -93,8 +106,8 @@ def gen_program(rng, eids, n, style, p_start=0.35, p_end=0.35):
     return out
 
 
-def gen_history_case(rng, style=None, maxlen=40):
-    codes = make_alphabet(rng)
+def gen_history_case(rng, style=None, maxlen=40, pool=None):
+    codes = make_alphabet(rng, pool=pool)
     eids = [c[0] for c in codes]
     ntids = rng.randint(1, 4)
     tids = pick_tids(rng, ntids)
@@ -111,6 +124,106 @@ def gen_history_case(rng, style=None, maxlen=40):
         pos[t] += 1
         events.append([i, t, e, q, [rng.getrandbits(64) for _ in range(4)]])
     return {'codes': codes, 'events': events, 'style': style}
+
+
+# ------------------------------------------------------------------------------------------------------
+# every real name in every role of a pairing history
+#
+# The pairing machine may not care WHICH code a record carries beyond (domain, thread, code identity).  A change that
+# singles out one code — by its name in the table (`trace_codes[...] == 'INTERRUPT'`), by a name list, by its id — is
+# invisible to histories over a synthetic alphabet.  So every name the package can possibly single out is put, in turn,
+# into every role of a small set of scripted histories: the registered handler names, every string literal of the source
+# that is or looks like a trace name (tools/kdv/mined.py), and names of the bundled table that have no decoder (a few on
+# the quick tier of an unchanged tree, all of them otherwise).
+# ------------------------------------------------------------------------------------------------------
+
+GENERIC_A = ('XYZ_custom', 'XYZ_other')            # generic decodable partner (not in the bundled table)
+GENERIC_B = ('BSC_read', 'BSC_write')              # the filler record r is a NONE-qualified record of this code
+NAME_SHAPES = ('nested-in-A', 'A-nested-in-N', 'N-closed-before-filler', 'N-single-q0', 'N-single-q3', 'N-reopened',
+               'two-threads', 'N-never-closed', 'two-threads-N-never-closed', 'N-first-never-closed')
+
+_POOL = {}
+
+
+def name_pool(tier='quick', changed=None):
+    """{'handlers': registered handler names, 'mined': name-like string literals of the source, 'table': names of the
+    bundled table without decoder (a sample on the quick tier of an unchanged tree), 'decodable' / 'undecoded': the two
+    classes `make_alphabet` draws from, 'all': every name once, names mentioned by changed files first}."""
+    from . import mined
+    changed = mined.changed_files() if changed is None else changed
+    key = (tier, tuple(changed))
+    if key in _POOL:
+        return _POOL[key]
+    p = real_parser()
+    handlers = list(p.handlers)
+    hset = set(handlers)
+    mnames = mined.all_names(changed, tier)
+    table = sorted(set(p.trace_codes.values()) - hset)
+    if tier == 'quick' and not changed:
+        # a spread over the sorted table (the name families of the kernel's code space are all hit)
+        step = max(1, len(table) // 24)
+        table = table[::step]
+    every = list(dict.fromkeys(mnames + handlers + table))
+    tn = set(trace_domain_names())
+    pool = {'handlers': handlers, 'mined': mnames, 'table': table, 'all': every,
+            'decodable': [n for n in dict.fromkeys(handlers + mnames) if n not in tn],
+            'undecoded': [n for n in dict.fromkeys(mnames + table) if n not in hset and n not in tn]}
+    _POOL[key] = pool
+    return pool
+
+
+def name_role_cases(names, handler_names=None):
+    """Scripted histories with the name N in every role, for every N of `names`.  A = generic decodable code, r = a
+    NONE-qualified filler record of a third code B; S/E = START/END:
+       [S A, r, S N, r, E A, E N]   [S N, S A, r, E N, E A]   [S A, S N, E N, r, E A]   [S A, N(q=0), r, E A]
+       [S A, N(q=3), r, E A]        [S N, r, S N, r, E N]     two threads: [S A t1, S N t2, r t1, r t2, E A t1, E N t2]
+       and with N's START never closed: [S A, S N, r, E A], [S A t1, S N t2, r t1, r t2, E A t1], [S N, S A, r, E A].
+    N carries its REAL id when the bundled table knows the name (a change may single the code out by id), is decodable iff
+    a handler is registered under it (names without a handler moreover once as decodable: the stubs make any name
+    decodable); a trace-domain N is moreover paired with a trace-domain partner A (same table)."""
+    p = real_parser()
+    hset = set(p.handlers) if handler_names is None else set(handler_names)
+    inv = {}
+    for k, v in p.trace_codes.items():
+        inv.setdefault(v, k)
+    tn = sorted(trace_domain_names())
+    t1, t2 = 0x1234, 77
+    out = []
+    for N in names:
+        A = GENERIC_A[0] if N != GENERIC_A[0] else GENERIC_A[1]
+        B = GENERIC_B[0] if N != GENERIC_B[0] else GENERIC_B[1]
+        partners = [A] + ([next(x for x in tn if x != N)] if N in tn else [])
+        flags = [N in hset] + ([True] if N not in hset else [])
+        for pi, An in enumerate(partners):
+            for fi, dec in enumerate(flags):
+                eB = inv[B]
+                eN = inv.get(N, 0x2e0b0c00)
+                eA = inv.get(An, 0x2f0f0f00)
+                while eA in (eN, eB):
+                    eA += 4
+                while eN in (eA, eB):
+                    eN += 4
+                codes = [[eA, An, True], [eN, N, dec], [eB, B, True]]
+                SA, EA, SN, EN_, r = (eA, 1), (eA, 2), (eN, 1), (eN, 2), (eB, 0)
+                hs_ = {
+                    'nested-in-A': [(t1,) + SA, (t1,) + r, (t1,) + SN, (t1,) + r, (t1,) + EA, (t1,) + EN_],
+                    'A-nested-in-N': [(t1,) + SN, (t1,) + SA, (t1,) + r, (t1,) + EN_, (t1,) + EA],
+                    'N-closed-before-filler': [(t1,) + SA, (t1,) + SN, (t1,) + EN_, (t1,) + r, (t1,) + EA],
+                    'N-single-q0': [(t1,) + SA, (t1, eN, 0), (t1,) + r, (t1,) + EA],
+                    'N-single-q3': [(t1,) + SA, (t1, eN, 3), (t1,) + r, (t1,) + EA],
+                    'N-reopened': [(t1,) + SN, (t1,) + r, (t1,) + SN, (t1,) + r, (t1,) + EN_],
+                    'two-threads': [(t1,) + SA, (t2,) + SN, (t1,) + r, (t2,) + r, (t1,) + EA, (t2,) + EN_],
+                    'N-never-closed': [(t1,) + SA, (t1,) + SN, (t1,) + r, (t1,) + EA],
+                    'two-threads-N-never-closed': [(t1,) + SA, (t2,) + SN, (t1,) + r, (t2,) + r, (t1,) + EA],
+                    'N-first-never-closed': [(t1,) + SN, (t1,) + SA, (t1,) + r, (t1,) + EA],
+                }
+                shapes = NAME_SHAPES if (pi == 0 and fi == 0) or pi > 0 and fi == 0 else \
+                    ('nested-in-A', 'N-single-q0', 'N-reopened')
+                for nm in shapes:
+                    out.append({'codes': codes, 'name': N,
+                                'events': [[i, t, e, q, [0, 0, 0, 0]] for i, (t, e, q) in enumerate(hs_[nm])],
+                                'style': 'names-' + nm})
+    return out
 
 
 # ------------------------------------------------------------------------------------------------------
@@ -318,7 +431,9 @@ class Spec:
         self.names = names
         self.h = [(e[0], e[1], e[2], e[3]) for e in case['events']]
         # accepted(h[:j], h[j]) depends on j only: tabulated once (still the declarative definition)
-        self.acc = [self.accepted(self.h[:j], self.h[j]) for j in range(len(self.h))]
+        # (a record that is not an END is accepted whatever came before: the prefix is only built for ENDs, which keeps
+        # histories of 10^5 records affordable)
+        self.acc = [x[3] != 2 or self.accepted(self.h[:j], x) for j, x in enumerate(self.h)]
 
     def key(self, x):
         return (self.dom.get(x[2], False), x[1], x[2])
@@ -418,8 +533,16 @@ def oracle_per_event(case, got):
         if x != g:
             return (classify(spec, i, x, g),
                     'event #%d (tid %d, code %#x, qualifier %d): expected %s, delivered %s'
-                    % (i, spec.h[i][1], spec.h[i][2], spec.h[i][3], x, g))
+                    % (i, spec.h[i][1], spec.h[i][2], spec.h[i][3], brief(x), brief(g)))
     return None
+
+
+def brief(window, keep=12):
+    """A window of thousands of records is described by its ends and its length."""
+    items = window.split(',')
+    if len(items) <= 2 * keep + 4:
+        return window
+    return '%s,...(%d records in all)...,%s' % (','.join(items[:keep]), len(items), ','.join(items[-keep:]))
 
 
 def has_multi_window(got):
@@ -439,15 +562,21 @@ def drop_event(case, i):
     return c
 
 
-def shrink_failures(rep, section, impl_fn, oracle_fn, line_fn, budget=4000):
-    """Replace the recorded failing case of each signature of `section` by a locally minimal one."""
+def shrink_failures(rep, section, impl_fn, oracle_fn, line_fn, budget=4000, seconds=25.0, expand=None):
+    """Replace the recorded failing case of each signature of `section` by a locally minimal one: blocks of events are
+    removed first (halving the block size), then single events; bounded by `budget` attempts and `seconds` of wall time per
+    signature (a window that fails only beyond thousands of records stays that long).  expand: turns a compactly recorded
+    case into one with an explicit event list."""
+    import time
     done = set()
     for f in rep.failures:
         rp = f['replay']
         if rp.get('section') != section or f['signature'] in done:
             continue
         done.add(f['signature'])
-        case = rp['case']
+        case = expand(rp['case']) if expand else rp['case']
+        deadline = time.time() + seconds
+        left = [budget]
 
         def fails(c):
             try:
@@ -456,17 +585,34 @@ def shrink_failures(rep, section, impl_fn, oracle_fn, line_fn, budget=4000):
                 got = 'err ' + core.err_name(e)
             r = oracle_fn(c, got)
             return (r, got) if r and r[0] == f['signature'] else None
-        changed = True
+
+        def spent():
+            return left[0] <= 0 or time.time() > deadline
         last = None
-        while changed and budget > 0:
+        block = len(case['events']) // 2
+        while block >= 2 and not spent():                       # coarse passes: drop whole blocks
+            i = 0
+            while i < len(case['events']) and not spent():
+                left[0] -= 1
+                cand = case
+                for j in reversed(range(i, min(i + block, len(case['events'])))):
+                    cand = drop_event(cand, j)
+                r = fails(cand)
+                if r:
+                    case, last = cand, r
+                else:
+                    i += block
+            block //= 2
+        changed = True
+        while changed and not spent():
             changed = False
             for i in reversed(range(len(case['events']))):
-                budget -= 1
+                left[0] -= 1
                 cand = drop_event(case, i)
                 r = fails(cand)
                 if r:
                     case, last, changed = cand, r, True
-                if budget <= 0:
+                if spent():
                     break
         if last:
             (sig, what), got = last
